@@ -165,7 +165,7 @@ def coq_run(ctx, name, body, timeout=900):
     return rc, out
 
 
-def coq_eval_many(ctx, files, timeout=900):
+def coq_eval_many(ctx, files, timeout=1800):
     """files: list of (name, body). Runs up to NPROC coqc in parallel. Returns {name: (rc,out)}"""
     procs = []
     res = {}
